@@ -89,6 +89,55 @@ func c18Filenames(r *drv.Run) {
 		}
 		os.RemoveAll(dir)
 	}
+	// what a search of file NAMES reports depends neither on what the files hold (some of them hold nothing) nor on the
+	// replace mode given: the document is the same under every mode and over empty files
+	for pi, prog := range []string{"find all at least 1 digit", "find all 'a'", "find all letter at least 1 digit"} {
+		dir := filepath.Join(r.WorkDir, "c18names", fmt.Sprintf("m%d", pi))
+		names := []string{"a1.txt", "b22.txt", "aa3.dat", "c.txt", "a44.txt"}
+		var base string
+		for vi, v := range []struct {
+			mode  string
+			empty []string
+		}{{"", nil}, {"NOTHING", nil}, {"NEW", nil}, {"OVERWRITE", nil}, {"", []string{"a1.txt"}}, {"NOTHING", []string{"a1.txt", "a44.txt"}}, {"NEW", names}, {"NOTHING", names}, {"OVERWRITE", []string{"b22.txt"}}} {
+			os.RemoveAll(dir)
+			os.MkdirAll(dir, 0o755)
+			isEmpty := map[string]bool{}
+			for _, n := range v.empty {
+				isEmpty[n] = true
+			}
+			for _, n := range names {
+				content := []byte("content 1 a")
+				if isEmpty[n] {
+					content = nil
+				}
+				os.WriteFile(filepath.Join(dir, n), content, 0o644)
+			}
+			args := []string{"-com", prog, "-files", "*.txt", "-filenames", "-json"}
+			if v.mode != "" {
+				args = append(args, "-replace-mode", v.mode)
+			}
+			code, stdout, stderr := runCLI(r.CLIBin, dir, args)
+			r.Eval(1)
+			var doc any
+			err := json.Unmarshal([]byte(stdout), &doc)
+			canon, _ := json.Marshal(doc)
+			if vi == 0 {
+				base = string(canon)
+				if code != 0 || err != nil || base == "null" || base == "[]" {
+					r.Inconclusive("file-name search gave no document to compare with: " + oneLineN(stdout+stderr, 160))
+					break
+				}
+				continue
+			}
+			if code != 0 || err != nil || string(canon) != base {
+				r.Violate(&drv.Violation{Sig: "filenames:document-depends-on-mode-or-file-content", Src: prog,
+					Detail: map[string]any{"arguments": fmt.Sprint(args), "empty_files": fmt.Sprint(v.empty), "exit": code, "document_with_default_mode_and_content": oneLineN(base, 300), "observed": oneLineN(stdout, 300), "stderr": oneLineN(stderr, 160)}})
+				continue
+			}
+			r.Count("filenames_documents_equal_across_modes_and_contents", 1)
+		}
+		os.RemoveAll(dir)
+	}
 	if r.NViolations() == 0 && r.Counter("filenames_invocations_verified") == 0 {
 		r.Inconclusive("coverage floor: filenames_invocations_verified = 0")
 	}
